@@ -115,11 +115,56 @@ func recC15(c *ctx) {
 	if c.cfg != "default" && c.tier == "thorough" {
 		voff = 2
 	}
+	// ---- input-length sweep: for EVERY alpha length 0..200 an honest proof (the four proving entry points rotate) must verify
+	// for its own alpha and for no neighbour of it (last byte changed, one byte dropped, one byte appended); the verdicts are
+	// fixed by the class of the request (Trace_C15: vrfsweep), so the sweep costs no real-scale recomputation
+	{
+		ssk := ed25519.NewKeyFromSeed(r.Bytes(32))
+		spk := []byte(ssk[32:])
+		for ln := 0; ln <= 200; ln++ {
+			alpha := r.Bytes(ln)
+			v10 := ln%2 == 1
+			var pi []byte
+			e := vt.Ev{"op": "vrfsweep", "cfg": c.cfg, "n": ln, "v10": v10, "entry": ln % 4}
+			if !c.try("vrfsweep", e, func() {
+				switch ln % 4 {
+				case 0:
+					pi = ecvrf.Prove(ssk, alpha)
+				case 1:
+					pi = ecvrf.Prove_v10(ssk, alpha)
+				case 2:
+					pi, _ = ecvrf.ProveWithAddedRandomness(r.Entropy(r.Bytes(32)), ssk, alpha)
+				case 3:
+					pi, _ = ecvrf.ProveWithAddedRandomness_v10(r.Entropy(r.Bytes(32)), ssk, alpha)
+				}
+				ver := func(a []byte) bool {
+					if v10 {
+						ok, _ := ecvrf.Verify_v10(spk, pi, a)
+						return ok
+					}
+					ok, _ := ecvrf.Verify(spk, pi, a)
+					return ok
+				}
+				e["same"] = ver(alpha)
+				e["app"] = ver(append(append([]byte(nil), alpha...), 0))
+				e["last"], e["trunc"] = false, false
+				if ln > 0 {
+					fl := append([]byte(nil), alpha...)
+					fl[ln-1] ^= 1
+					e["last"] = ver(fl)
+					e["trunc"] = ver(alpha[:ln-1])
+				}
+			}) {
+				continue
+			}
+			c.w.Emit(e)
+		}
+	}
 	for i := 0; i < n; i++ {
 		seed := r.Bytes(32)
 		sk := ed25519.NewKeyFromSeed(seed)
 		pk := []byte(sk[32:])
-		alpha := r.Bytes([]int{0, 1, 20, 100}[r.Intn(4)])
+		alpha := r.Bytes([]int{0, 1, 20, 100, 64 + r.Intn(40), r.Intn(200)}[r.Intn(6)])
 		// the four proving entry points rotate; the rotation starts elsewhere on the second configuration so that a
 		// quick run (two proofs per configuration) still goes through all four
 		variant := (i + voff) % 4
